@@ -17,6 +17,7 @@ import (
 	"google.golang.org/protobuf/reflect/protoreflect"
 	"google.golang.org/protobuf/reflect/protoregistry"
 	"google.golang.org/protobuf/types/dynamicpb"
+	"google.golang.org/protobuf/types/known/emptypb"
 	"google.golang.org/protobuf/types/known/durationpb"
 	"google.golang.org/protobuf/types/known/timestamppb"
 
@@ -250,6 +251,22 @@ func (e *env) aliasCase(i int, shape, typing string) {
 	if typing == "mixed" {
 		newIn, newSrvMsg = newDynamic, newDynamic()
 	}
+	// opaque: both receivers use a type that declares none of the fields (a forwarder, or a client built against an
+	// older API): over a real connection everything travels on as unknown fields, nothing is lost
+	opaque := typing == "opaque"
+	if opaque {
+		newIn = func() proto.Message { return new(emptypb.Empty) }
+	}
+	reveal := func(m proto.Message) proto.Message {
+		if !opaque {
+			return m
+		}
+		out := new(testproto.TestAllTypes)
+		if err := proto.Unmarshal(wire(m), out); err != nil {
+			return m
+		}
+		return out
+	}
 	gen := func(like proto.Message) proto.Message {
 		for k := 0; ; k++ {
 			m := vk.GenMessage(rng, like, opts)
@@ -264,6 +281,9 @@ func (e *env) aliasCase(i int, shape, typing string) {
 		scn := &aliasScn{newIn: newIn, resp: resp}
 		curAlias.Store(scn)
 		out := proto.Message(new(testproto.TestAllTypes))
+		if opaque {
+			out = new(emptypb.Empty)
+		}
 		reqW, respW := wire(req), wire(resp)
 		var cc grpc.ClientConnInterface = e.realCC
 		var baseline map[int]bool
@@ -323,19 +343,23 @@ func (e *env) aliasCase(i int, shape, typing string) {
 			continue
 		}
 		// content: what arrives is what was sent (on both transports)
-		if !bytes.Equal(wire(srvIn), reqW) {
+		if !bytes.Equal(wire(reveal(srvIn)), reqW) {
 			if side == sideWrap {
 				r.Violation("C13/"+shape+"/server-received/rich-message-"+typing, fmt.Sprintf("server received %s, client sent %s", vk.JSON(srvIn), vk.JSON(req)), replay)
 			} else {
 				r.Inconclusive("real-side-content/alias", "request changed over the real transport")
 			}
 		}
-		if !bytes.Equal(wire(out), respW) {
+		if !bytes.Equal(wire(reveal(out)), respW) {
 			if side == sideWrap {
-				r.Violation("C13/"+shape+"/messages/rich-message-"+typing, fmt.Sprintf("client received %s, server sent %s", vk.JSON(out), vk.JSON(resp)), replay)
+				r.Violation("C13/"+shape+"/messages/rich-message-"+typing, fmt.Sprintf("client received %s, server sent %s", vk.JSON(reveal(out)), vk.JSON(resp)), replay)
 			} else {
 				r.Inconclusive("real-side-content/alias", "response changed over the real transport")
 			}
+		}
+		if opaque {
+			cancel()
+			continue // nothing to mutate in a message without declared fields
 		}
 		if side == sideWrap {
 			// isolation: once the call is over, changing one party's copy in place must not show in the other's
